@@ -59,6 +59,8 @@ def _resolve(a, x, outs):
         return E.getitem(o.value, a[2]) if isinstance(o.value, E.SYM_TYPES) else o.value[a[2]]
     if isinstance(a, tuple) and a and a[0] == 'tail':
         return x[2:]
+    if isinstance(a, tuple) and a and a[0] == 'xslice':
+        return x[a[1]:a[2]]
     if isinstance(a, tuple) and a and a[0] == 'cat':
         parts = [E.force(_resolve(p, x, outs)) for p in a[1:]]
         out = []
@@ -115,6 +117,8 @@ def steps_for(calls, xs):
                 return ('$item', a[1], a[2])
             if isinstance(a, tuple) and a and a[0] == 'tail':
                 return xs[2:]
+            if isinstance(a, tuple) and a and a[0] == 'xslice':
+                return xs[a[1]:a[2]]
             if isinstance(a, tuple) and a and a[0] == 'cat':
                 return ('$cat', [enc(p) for p in a[1:]])
             if isinstance(a, tuple) and a and a[0] == 'slice':
